@@ -659,7 +659,11 @@ class Cov(SingleAggregation):
 
     @property
     def chunk_kwargs(self) -> dict:  # type: ignore[override]
-        return self.operand("chunk_kwargs")
+        return {
+            **self.operand("chunk_kwargs"),
+            **_as_dict("observed", self.observed),
+            **_as_dict("dropna", self.dropna),
+        }
 
     @property
     def aggregate_kwargs(self) -> dict:  # type: ignore[override]
@@ -667,6 +671,8 @@ class Cov(SingleAggregation):
         kwargs["sort"] = self.sort
         kwargs["std"] = self.std
         kwargs["levels"] = self.levels
+        kwargs.update(_as_dict("observed", self.observed))
+        kwargs.update(_as_dict("dropna", self.dropna))
         return kwargs
 
     @property
